@@ -53,7 +53,7 @@ PRE = {
 }
 
 
-def build(driver, mode, oplog, d, chooser=None, interval=1, preexisting=False):
+def build(driver, mode, oplog, d, chooser=None, interval=1, preexisting=False, declared_mode=None):
     from quansino.mc.canonical import Canonical
     from quansino.mc.fbmc import ForceBias
     from quansino.mc.gcmc import GrandCanonical
@@ -69,7 +69,8 @@ def build(driver, mode, oplog, d, chooser=None, interval=1, preexisting=False):
     files = {t: CrashFile(os.path.join(d, t), mode, oplog, t) for t in tags}
     pos = np.array([[1.0, 1.2, 0.9], [3.1, 2.2, 4.0]])
     atoms = Atoms("Ar2", positions=pos, cell=[6.0] * 3, pbc=True)
-    kw = dict(logfile=files["log"], trajectory=files["traj"], logging_interval=interval, logging_mode=mode, seed=5)
+    # ``logging_mode`` only says how quansino would open a *path*; a caller-opened handle may differ
+    kw = dict(logfile=files["log"], trajectory=files["traj"], logging_interval=interval, logging_mode=declared_mode or mode, seed=5)
     if "restart" in files:
         kw["restart_file"] = files["restart"]
     with warnings.catch_warnings():
@@ -249,7 +250,7 @@ def task_fixed(arg):
     d = scratch_dir()
     oplog = OpLog()
     try:
-        sim, atoms, files = build(driver, mode, oplog, d, interval=arg.get("interval", 1), preexisting=arg.get("pre", False))
+        sim, atoms, files = build(driver, mode, oplog, d, interval=arg.get("interval", 1), preexisting=arg.get("pre", False), declared_mode=arg.get("declared"))
         try:
             sim.run(arg["steps"])
             sim.close()
@@ -258,7 +259,7 @@ def task_fixed(arg):
     finally:
         cleanup(d)
     counters["ops"] = len(oplog.ops)
-    analyse(oplog, driver, mode, add, counters, f"{driver} run({arg['steps']}) interval {arg.get('interval', 1)}" + (" (files with earlier content)" if arg.get("pre") else ""), preexisting=arg.get("pre", False))
+    analyse(oplog, driver, mode, add, counters, f"{driver} run({arg['steps']}) interval {arg.get('interval', 1)}" + (" (files with earlier content)" if arg.get("pre") else "") + (f" (handles opened '{mode}', logging_mode '{arg['declared']}')" if arg.get("declared") else ""), preexisting=arg.get("pre", False))
     sample = {"driver": driver, "mode": mode, "first_operations": [[t, o, len(b)] for t, o, b in oplog.ops[:14]], "marks": js(oplog.marks[:6])}
     return {"counters": counters, "violations": viol, "samples": [sample]}
 
@@ -328,6 +329,7 @@ def run(tier, seed):
         acc.add(r)
     fixed = [{"driver": d, "mode": m, "steps": 4, "interval": iv} for d in ("Canonical", "ForceBias") for m in ("a", "w") for iv in (1, 2)]
     fixed += [{"driver": d, "mode": m, "steps": 3, "interval": 1, "pre": True} for d in ("Canonical", "ForceBias") for m in ("a", "w")]
+    fixed += [{"driver": "Canonical", "mode": m, "declared": dm, "steps": 3, "interval": 1, "pre": p} for m, dm in (("w", "a"), ("a", "w")) for p in (False, True)]
     for r in pmap(__name__, "task_fixed", fixed):
         acc.add(r)
     faults = [{"driver": d, "mode": "a", "pos": p, "k": k, "steps": 3} for d in ("Canonical", "ForceBias") for p in ("first", "middle", "last") for k in range(0, 4)]
